@@ -221,9 +221,16 @@ def Seg.isCatchAll : Seg → Bool
   | .catchAll _ _ => true
   | _ => false
 
+def parseSegs : List (List Char) → Option (List Seg)
+  | [] => some []
+  | s :: ss =>
+    match parseSeg s, parseSegs ss with
+    | some a, some as => some (a :: as)
+    | _, _ => none
+
 /-- A route; `none` outside the modelled family (a catch-all that is not last, …). -/
 def parsePat (p : List Char) : Option (List Seg) :=
-  match (splitSlash p).mapM parseSeg with
+  match parseSegs (splitSlash p) with
   | none => none
   | some segs => if segs.dropLast.any Seg.isCatchAll then none else some segs
 
@@ -234,7 +241,7 @@ def segsMatch : List Seg → List (List Char) → Bool
   | [], [] => true
   | .lit s :: ss, p :: ps => p == s && segsMatch ss ps
   | .param pre _ :: ss, p :: ps => (pre.isPrefixOf p && pre.length < p.length) && segsMatch ss ps
-  | .catchAll pre _ :: _, p :: ps => pre.isPrefixOf p && (pre.length < p.length || !ps.isEmpty)
+  | .catchAll pre _ :: ss, p :: ps => ss.isEmpty && pre.isPrefixOf p && (pre.length < p.length || !ps.isEmpty)
   | _, _ => false
 
 /-- Would `insert` of one of the two routes fail with `Conflict` if the other is present?
